@@ -1,2 +1,9 @@
 import PysamlModel.Props.C13
-#print axioms C13.C13_placeholder
+#print axioms C13.C13_derivative_correct
+#print axioms C13.C13_content_iff
+#print axioms C13.C13_complexPre_content
+#print axioms C13.C13_valid_ids_unique
+#print axioms C13.C13_boolean_lexical
+#print axioms C13.C13_order_partial
+#print axioms C13.C13_order_table
+#print axioms C13.C13_order_table_valid
